@@ -251,6 +251,9 @@ func variant(r *lib.RNG, coll string, v x.Val) x.Val {
 			}
 			return v
 		default:
+			if v.I > 1000000000000 || v.I < -1000000000000 {
+				return x.Dec(v.I+int64(r.Range(-1, 1)), v.S)
+			}
 			return genDec(r, []int{0, 1, 2, 4})
 		}
 	case "str":
@@ -284,6 +287,10 @@ func genPair(r *lib.RNG) pairCase {
 			v = x.Int(lib.Pick(r, intPool))
 		case 2, 3:
 			v = genDec(r, []int{0, 1, 2, 4})
+			if r.Chance(1, 5) {
+				// beyond float64 precision
+				v = x.Dec(lib.Pick(r, []int64{1234567890123456788, 1234567890123456789, -1234567890123456789}), 2)
+			}
 		case 4:
 			v = x.Null()
 		default:
